@@ -5,7 +5,7 @@ from core import log
 from props import C06
 
 ASSUMPTIONS = [
-    "kernel/file-system behaviour on real short writes to a REGULAR file (disk full after create truncated it) is represented only by the model's oracle outcome WWriteFailTruncated, which C08_atomic excludes and names; it is outside the property's quantifier",
+    "a write that fails half-way is injected with a file-size limit (RLIMIT_FSIZE); a full disk or quota is assumed to fail the same system call the same way. The model's one excluded outcome (WWriteFailTruncated) needs two faults at once: the directory refuses a temporary file AND the direct write fails half-way",
     "running as root: a read-only directory does not make a destination uncreatable, so 'uncreatable' is injected with a missing directory and with a directory in place of the file",
 ]
 
@@ -178,12 +178,40 @@ def correspondence(ctx, violations, known_hits):
                 violations.append({"kind": "not-all-or-nothing", "class": tag, "destination": dk, "fault": "the reader of compile's stdout went away after the first line",
                                    "source": text, "exit": rc, "destination_before": before.hex() if before else None,
                                    "destination_after": after.hex() if after is not None else None, "model_exit": mo[0]})
+    # the destination CAN be created but NOT completely written: a file-size limit of 1 KiB (RLIMIT_FSIZE, SIGXFSZ ignored, as a
+    # full disk or quota would do) and an image of 2 KiB - absent and pre-existing regular destinations, in a fresh directory that
+    # must hold nothing new afterwards
+    import resource, signal
+    big = ".orig x3000\nhalt\n.blkw #1000\n.end\n"
+    def limited():
+        signal.signal(signal.SIGXFSZ, signal.SIG_IGN)
+        resource.setrlimit(resource.RLIMIT_FSIZE, (1024, 1024))
+    for dk in ("absent", "existing", "existing-longer"):
+        sub = os.path.join(d, "fsize-" + dk); os.makedirs(sub, exist_ok=True)
+        open(os.path.join(sub, "p.asm"), "w").write(big)
+        dest = os.path.join(sub, "out.lc3")
+        before = None
+        if dk != "absent":
+            before = OLD if dk == "existing" else OLD * 40
+            open(dest, "wb").write(before)
+        p = subprocess.run([exe, "compile", "p.asm", "out.lc3"], cwd=sub, stdout=subprocess.DEVNULL, stderr=subprocess.DEVNULL, stdin=subprocess.DEVNULL,
+                           env=dict(os.environ, NO_COLOR="1", RUST_BACKTRACE="0"), preexec_fn=limited, timeout=20)
+        after = open(dest, "rb").read() if os.path.exists(dest) else None
+        left = sorted(os.listdir(sub))
+        ev += 1
+        sigs.add(("fsize-limit", dk, p.returncode == 0))
+        good = p.returncode != 0 and after == before and left == (["p.asm"] if dk == "absent" else ["out.lc3", "p.asm"])
+        if not good:
+            nv += 1
+            violations.append({"kind": "not-all-or-nothing", "class": "ok (2,004-byte image)", "destination": dk, "fault": "file-size limit of 1,024 bytes: the destination can be created but not completely written",
+                               "source": big, "exit": p.returncode, "destination_before": before.hex()[:80] if before else None,
+                               "destination_after": (after.hex()[:80] + "... (%d bytes)" % len(after)) if after is not None else None, "directory_after": left})
     ctx.cleanup()
     return {
         "evaluations": ev, "distinct_nontrivial": len(sigs),
         "rule": "fault enumeration at the CLI: an out-of-range label reference injected at EVERY statement position 0..n of programs "
                 "with n up to 40 (several PC-relative instructions), plus parse/lex/label errors and valid programs, x destination "
-                "absent / pre-existing with unrelated contents, empty, a proper prefix of the new object file, the new object file followed by stale words / a link to /dev/full / missing directory / a directory in place of the file / a dangling link / a file name that is not valid UTF-8 (absent, pre-existing); sources without any statement (empty, comments, `.orig` alone, `.end` first); the reader of compile's standard output going away after the first progress line; the scratch directory must hold nothing new; "
+                "absent / pre-existing with unrelated contents, empty, a proper prefix of the new object file, the new object file followed by stale words / a link to /dev/full / missing directory / a directory in place of the file / a dangling link / a file name that is not valid UTF-8 (absent, pre-existing); sources without any statement (empty, comments, `.orig` alone, `.end` first); the reader of compile's standard output going away after the first progress line; a file-size limit below the image's size (the destination can be created but not completely written); the scratch directory must hold nothing new; "
                 "observed: exit status and the bytes at the destination before and after; distinct = distinct (class, destination, exit==0)",
         "exhaustive": True, "exhaustive_over": "failing statement position 0..n for each listed n",
         "histogram": hist, "samples": samples, "mismatches": nv,
